@@ -799,6 +799,11 @@ func propC07Random(col *evid.Collector) func(rt *rapid.T) {
 				planted = append(planted, "registered-while-build-is-under-way")
 			}
 		}
+		if rapid.IntRange(0, 3).Draw(rt, "twinLifetimes") == 0 && kit.PlantTwinsLifetimes(rt, cfg) {
+			// two parameter-object types with one printed name and one layout: one asks for a scoped
+			// service (by name or by type), its twin for a singleton of that type
+			planted = append(planted, "twin-parameter-objects-over-a-scoped-and-a-singleton-provider")
+		}
 		if rapid.IntRange(0, 2).Draw(rt, "sliceNamed") == 0 && kit.PlantSliceNamed(rt, cfg) {
 			planted = append(planted, "scoped-slice-service-named-like-a-group-field")
 		}
